@@ -3,6 +3,43 @@ import json, os
 VERIF = os.path.dirname(os.path.dirname(os.path.abspath(__file__)))
 
 CHECKS = {
+    "C02": dict(
+        category="model_checking",
+        text="Incremental.tla models the cache protocol of build.py operation by operation (load/validate incl. the meta-rewriting mtime path, "
+             "freshness from dep/indirect hashes, trees from data records vs hashes from meta records, data/meta/meta_ex writes with commits, "
+             "both stores); TLC checks OutEqualsCold and FreshIsRight over all edit/touch/run histories of the bound and emits every history; each is "
+             "replayed into real mypy in the store x format configurations with a cold run as oracle after every run and the model's "
+             "re-analysed / reported sets as binding; recorded store traces are validated against Trace_Incremental.tla. Catalogue R histories "
+             "(2-step exhaustive in thorough, seeded 3-4 step with stubs / deletions) are real-vs-real.",
+        design_ref="DESIGN.md 5.C02",
+        note="bounded catalogue of 3-5 modules and 4-6 content variants each; logical clock (A-clock); in-process build with test fixtures; "
+             "oracle is a cold run of the same code; trusted: TLC, the harness' store proxy",
+        technique="TLA+ spec (Incremental.tla) model-checked with TLC; TLC-generated histories replayed into real mypy against a cold-run oracle; trace validation with Trace_Incremental.tla",
+    ),
+    "C04": dict(
+        category="fault_enumeration",
+        text="Incremental.tla with Crash and failing writes as independently enabled actions (FS and sqlite store semantics): TLC visits every "
+             "position between two store operations and every <=2 failed writes and checks OutEqualsCold / FreshIsRight for all later runs; "
+             "the specification mutants that drop one protocol safeguard each are rejected. Real side: for every base history the run after an "
+             "edit is really killed (forked child, os._exit) after EACH of its store operations and has EACH write fail, followed by "
+             "{nothing, revert} + clean run + run after editing the importer, every completed run compared with a cold run; store traces "
+             "across process deaths are validated against Trace_Incremental.tla.",
+        design_ref="DESIGN.md 5.C04",
+        note="A-kill (process death, not power loss), A-clock, A-single-writer; sequential build only (parallel workers: see C07); remove() "
+             "failures are outside the quantifier (writes)",
+        technique="TLA+ spec with Crash/WriteFails actions model-checked with TLC; exhaustive real kill-point and failed-write enumeration replayed into real mypy; trace validation",
+    ),
+    "C09": dict(
+        category="model_checking",
+        text="CacheKey.tla (options as validity key, rendered diagnostics stored, print options applied at replay) is instantiated with constants "
+             "extracted from the code (option table, OPTIONS_AFFECTING_CACHE, options read by format_messages) and a measured Affects relation; "
+             "TLC lists the options with a stale history; every affected option x place (config global, command line, per-module section) x "
+             "witness is replayed on real mypy as A;B, B;A, A;B;A, B;A;B on one cache with a cold run of the same options as oracle.",
+        design_ref="DESIGN.md 5.C09",
+        note="options without a witness program are listed as not exercised; options that move the cache (python_version, cache_dir) excluded; "
+             "Options are built by main.process_options from real argv / mypy.ini, the build runs in-process with fixtures",
+        technique="TLA+ spec (CacheKey.tla) instantiated from extracted option tables, checked with TLC; option-toggle histories replayed into real mypy against a cold-run oracle",
+    ),
     "C16": dict(
         category="fault_enumeration",
         text="TLC checks Alive / NoStaleStatus / Intact / RepliesRight on DmypyServe.tla (all client-plan sequences of <=3 connections, every "
